@@ -119,6 +119,7 @@ type c11Rule struct {
 	Implicit, Explicit, Different map[string]any // service fragments
 	TopI, TopE, TopD              map[string]any // top-level fragments
 	DB                            map[string]any // extra attributes of the second service `db`
+	Web                           map[string]any // attributes `web` already has in the base document, whatever the placement
 	Check                         string         // absolute check applied to the `different` variant
 	AbsentCheck                   string         // absolute check applied to the implicit variant
 }
@@ -178,6 +179,13 @@ func c11Rules() []c11Rule {
 			Different: kvm("build", kvm("context", "./other", "dockerfile", "Dockerfile.dev")), Check: "build-other"},
 		{Name: "build-dockerfile-inline", Implicit: kvm("build", kvm("dockerfile_inline", "FROM x")), Explicit: kvm("build", kvm("dockerfile_inline", "FROM x", "context", ".")),
 			Different: kvm("build", kvm("dockerfile_inline", "FROM x")), Check: "no-dockerfile", AbsentCheck: "no-dockerfile"},
+		// the same port in the base document with its defaults implicit: one port whichever file spells them out
+		{Name: "port-defaults-across-files", Web: kvm("ports", []any{kvm("target", 80, "published", "8080")}),
+			Implicit: kvm("ports", []any{kvm("target", 80, "published", "8080", "name", "http")}),
+			Explicit: kvm("ports", []any{kvm("target", 80, "published", "8080", "name", "http", "protocol", "tcp", "mode", "ingress")})},
+		{Name: "secret-target-across-files", Web: kvm("secrets", []any{"sec1"}),
+			Implicit: kvm("secrets", []any{kvm("source", "sec1", "mode", 288)}), Explicit: kvm("secrets", []any{kvm("source", "sec1", "target", "/run/secrets/sec1", "mode", 288)}),
+			TopI: kvm("secrets", kvm("sec1", kvm("file", "/s"))), TopE: kvm("secrets", kvm("sec1", kvm("file", "/s")))},
 		{Name: "port-protocol-and-mode", Implicit: kvm("ports", []any{kvm("target", 80, "published", "8080")}), Explicit: kvm("ports", []any{kvm("target", 80, "published", "8080", "protocol", "tcp", "mode", "ingress")}),
 			Different: kvm("ports", []any{kvm("target", 80, "published", "8080", "protocol", "udp", "mode", "host")}), Check: "port-udp-host"},
 		{Name: "secret-target", Implicit: kvm("secrets", []any{kvm("source", "sec1")}), Explicit: kvm("secrets", []any{kvm("source", "sec1", "target", "/run/secrets/sec1")}),
@@ -365,13 +373,16 @@ func c11Cases(noise map[string]any, noiseKey string) []c11Case {
 	var out []c11Case
 	for _, r := range c11Rules() {
 		noise := noise
-		if len(r.DB) > 0 {
+		if len(r.DB) > 0 || len(r.Web) > 0 {
 			n2 := map[string]any{}
 			for k, v := range noise {
 				n2[k] = v
 			}
 			for k, v := range r.DB {
 				n2["db:"+k] = v
+			}
+			for k, v := range r.Web {
+				n2[k] = v
 			}
 			noise = n2
 		}
@@ -446,10 +457,14 @@ func genC11Dep(t *rapid.T) c11DepCase {
 	return cs
 }
 
-func c11DepCheck(c *Ctx, cs c11DepCase) *Failure {
-	if len(cs.Steps) == 0 {
-		return nil
-	}
+type c11Dep struct {
+	cond              string
+	required, restart bool
+}
+
+// c11DepFiles lays the steps out as files and returns the reference dependency table. `disabled` services get a
+// profile that is not active.
+func c11DepFiles(cs c11DepCase, disabled map[string]bool) (files []memFile, main []string, want map[string]*c11Dep, viaExtends bool) {
 	frag := func(st c11DepStep) any {
 		if st.Refine != "" {
 			return map[string]any{st.Refine: cloneTree(st.Attrs)}
@@ -461,11 +476,8 @@ func c11DepCheck(c *Ctx, cs c11DepCase) *Failure {
 		return l
 	}
 	// the reference: every dependency named anywhere, with the defaults, then the refinements in order
-	type dep struct {
-		cond              string
-		required, restart bool
-	}
-	want := map[string]*dep{}
+	type dep = c11Dep
+	want = map[string]*dep{}
 	for _, st := range cs.Steps {
 		for _, d := range st.List {
 			if want[d] == nil {
@@ -489,15 +501,17 @@ func c11DepCheck(c *Ctx, cs c11DepCase) *Failure {
 	svcs := map[string]any{}
 	for _, d := range []string{"db", "cache", "mq", "log"} {
 		svcs[d] = map[string]any{"image": "busybox"}
+		if disabled[d] {
+			svcs[d].(map[string]any)["profiles"] = []any{"not-active"}
+		}
 	}
-	var files []memFile
-	main := []string{"compose.yaml"}
+	main = []string{"compose.yaml"}
 	rest := cs.Steps[1:]
 	if cs.ExtendsFirst && len(cs.Steps) >= 2 && cs.Steps[1].Refine == "" {
 		svcs["tmpl"] = map[string]any{"image": "nginx", "depends_on": frag(cs.Steps[0])}
 		svcs["web"] = map[string]any{"extends": map[string]any{"service": "tmpl"}, "depends_on": frag(cs.Steps[1])}
 		rest = cs.Steps[2:]
-		c.Label("depends-on-list:through-extends")
+		viaExtends = true
 	} else {
 		svcs["web"] = map[string]any{"image": "nginx", "depends_on": frag(cs.Steps[0])}
 	}
@@ -506,6 +520,17 @@ func c11DepCheck(c *Ctx, cs c11DepCase) *Failure {
 		n := fmt.Sprintf("override-%d.yaml", i)
 		files = append(files, memFile{Name: n, Content: emitYAML(map[string]any{"services": map[string]any{"web": map[string]any{"depends_on": frag(st)}}}, nil)})
 		main = append(main, n)
+	}
+	return files, main, want, viaExtends
+}
+
+func c11DepCheck(c *Ctx, cs c11DepCase) *Failure {
+	if len(cs.Steps) == 0 {
+		return nil
+	}
+	files, main, want, viaExtends := c11DepFiles(cs, nil)
+	if viaExtends {
+		c.Label("depends-on-list:through-extends")
 	}
 	c.Label(fmt.Sprintf("depends-on-list:files:%d", len(main)))
 	r := loadCase{Files: files, Main: main}.loadMem()
